@@ -3,7 +3,7 @@ import gens
 import vlib
 
 ID = "C04"
-LEAN_MODULES = ["LexVerif.Props.C04", "LexVerif.Props.C04Format", "LexVerif.Props.TablesUtil", "LexVerif.Props.Literals.ParseIntegerAlgorithm", "LexVerif.Props.Literals.ParseIntegerApi", "LexVerif.Props.Literals.ParseIntegerParse", "LexVerif.Props.Literals.UtilDigit", "LexVerif.Props.Literals.UtilNum", "LexVerif.Props.Literals.UtilNoskip"]
+LEAN_MODULES = ["LexVerif.Props.Literals.UtilError", "LexVerif.Props.C04", "LexVerif.Props.C04Format", "LexVerif.Props.TablesUtil", "LexVerif.Props.Literals.ParseIntegerAlgorithm", "LexVerif.Props.Literals.ParseIntegerApi", "LexVerif.Props.Literals.ParseIntegerParse", "LexVerif.Props.Literals.UtilDigit", "LexVerif.Props.Literals.UtilNum", "LexVerif.Props.Literals.UtilNoskip"]
 GEN = ["util_tables", "literals"]
 TRUSTED = [
     "Lean 4.33.0 kernel; axioms of each theorem listed under coverage.theorems",
